@@ -216,7 +216,7 @@ impl Check for C17 {
         "exploration"
     }
     fn rule(&self) -> String {
-        "(integrity) on generated arena-churn histories (arenas 64 B..64 KiB, payloads empty..arena-filling, acks released first/last/shuffled, QoS 0 publishes and reconnects interleaved) every retransmission is compared byte-wise with the first transmission, and after every step the arena copy of every retained entry (verif hook) is compared with its first transmission and the arena layout invariant is checked; (leak) twin run: the aged session is drained by the benign continuation, then a deterministic probe battery (largest QoS 1 payload by bisection, number of minimum-size QoS 1 / QoS 2 / SUBSCRIBE requests accepted with acks withheld, largest QoS 0 payload) runs on it and on a brand-new session with identical buffers; the two transcripts must be identical; (send window) a window of 1, 2, 3 or 8 slots (Receive Maximum 1/2/3/8/20/absent) is filled with QoS 1/2 publishes, with SUBSCRIBE/UNSUBSCRIBE requests in between, every exchange is ended by PUBACK / PUBREC with each success and failure code (short and long form), PUBCOMP, SUBACK or UNSUBACK in any order over one to three rounds, after which exactly as many new QoS 1 publishes as the window holds must be accepted and the next one refused; an identifier appears at most once in the retained table and at most once in the release table at every snapshot; (graceful close) arenas of 48..512 bytes are filled to the brim with unacknowledged packets, the application disconnects with a DISCONNECT carrying properties sized around the remaining room (accepted or refused for lack of room) and resumes the session: what is replayed equals the first transmission. Non-trivial iff an acknowledgement removed a non-last entry (compaction moved packets) during the history; distinct = abstract traces.".into()
+        "(integrity) on generated arena-churn histories (arenas 64 B..64 KiB, payloads empty..arena-filling, acks released first/last/shuffled, QoS 0 publishes and reconnects interleaved) every retransmission is compared byte-wise with the first transmission, and after every step the arena copy of every retained entry (verif hook) is compared with its first transmission and the arena layout invariant is checked; (leak) twin run: the aged session is drained by the benign continuation, then a deterministic probe battery (largest QoS 1 payload by bisection, number of minimum-size QoS 1 / QoS 2 / SUBSCRIBE requests accepted with acks withheld, largest QoS 0 payload) runs on it and on a brand-new session with identical buffers; the two transcripts (which include what can_publish() says before the battery, after the largest packet was acknowledged and after everything was released) must be identical, and in either session can_publish() is true for every QoS whenever nothing is held; (send window) a window of 1, 2, 3 or 8 slots (Receive Maximum 1/2/3/8/20/absent) is filled with QoS 1/2 publishes, with SUBSCRIBE/UNSUBSCRIBE requests in between, every exchange is ended by PUBACK / PUBREC with each success and failure code (short and long form), PUBCOMP, SUBACK or UNSUBACK in any order over one to three rounds, after which exactly as many new QoS 1 publishes as the window holds must be accepted and the next one refused; an identifier appears at most once in the retained table and at most once in the release table at every snapshot; (graceful close) arenas of 48..512 bytes are filled to the brim with unacknowledged packets, the application disconnects with a DISCONNECT carrying properties sized around the remaining room (accepted or refused for lack of room) and resumes the session: what is replayed equals the first transmission. Non-trivial iff an acknowledgement removed a non-last entry (compaction moved packets) during the history; distinct = abstract traces.".into()
     }
     fn assumptions(&self) -> Vec<String> {
         let mut v: Vec<String> = COMMON_ASSUME.iter().map(|s| s.to_string()).collect();
